@@ -12,7 +12,7 @@ from concurrent.futures import ThreadPoolExecutor
 
 from lib import gN, gbool, bspec_in, bspec_obs, lcg_bytes, hexs
 
-HEADER = "From CJ Require Import Common.Base C15.Model C15.ModelName C15.ModelObf C15.ModelAny C15.ModelDns C15.ModelB32 C15.ModelExch C15.ModelPb C15.ModelDot C15.ModelSeq C15.Run.\n"
+HEADER = "From CJ Require Import Common.Base C15.Model C15.ModelName C15.ModelObf C15.ModelAny C15.ModelDns C15.ModelB32 C15.ModelExch C15.ModelPb C15.ModelDot C15.ModelSeq C15.ModelStream C15.Run.\n"
 DNSREG = "pkg/registrars/dns-registrar/"
 PKGS = {
     "msgformat": (".", DNSREG + "msgformat", "c15/msgformat_driver_test.go", "TestVerifC15Msgformat"),
@@ -902,6 +902,75 @@ def post_rburst(ctx, c):
     return None
 
 
+
+# ------------------------------------------------------------------ the stream-cipher shape of CTR / GCM (ModelStream.v)
+def gen_stream(ctx):
+    rng, quick = ctx.rng, ctx.tier == "quick"
+    out = []
+    for n in ([0, 1, 15, 16, 17, 31, 32, 33, 100] if quick else list(range(0, 70)) + [100, 255, 256, 1000]):
+        d, key, iv = rb(rng, n), rb(rng, 16), rb(rng, 16)
+        out.append(Case("stream", "transports", {"op": "stream", "data": bytes(d).hex(), "key": key.hex(), "iv": iv.hex()}, (bytes(d), key, iv)))
+    for v in ("ctr", "gcm"):
+        for n in ([1, 16, 33] if quick else [0, 1, 2, 15, 16, 17, 32, 33, 100]):
+            total = 32 + n + (16 if v == "gcm" else 0)
+            regions = {"header": (0, 32), "body": (32, 32 + n)}
+            if v == "gcm":
+                regions["tag"] = (32 + n, total)
+            for reg, (lo, hi) in regions.items():
+                if hi <= lo:
+                    continue
+                for _ in range(2 if quick else 6):
+                    pos = rng.randrange(8 * lo, 8 * hi)
+                    t = rb(rng, n)
+                    out.append(Case("damage", "transports", {"op": "damage", "variant": v, "data": bytes(t).hex(), "pos": pos}, (v, bytes(t), pos, reg)))
+    return out
+
+
+def xorb(a, b):
+    return bytes(x ^ y for x, y in zip(a, b))
+
+
+def post_stream(ctx, c):
+    (d, key, iv), r = c.aux, c.res
+    case = {"fam": "stream", "data": d.hex(), "key": key.hex(), "iv": iv.hex()}
+    if r.get("panic") or not r["ok"] or not r["ok2"]:
+        ctx.broken("driver", "the AES helpers failed on a generated case: %s %s %s" % (r.get("panic"), r["err"], r["err2"]), case)
+        return None
+    ctx.count(("stream", d, key, iv), kind="stream")
+    o, ks, go, gks = (bytes.fromhex(r[k]) for k in ("out", "out1b", "out2", "snap"))
+    n = len(d)
+    if not (len(ks) == n and o == xorb(ks, d)):
+        ctx.fail("stream-hypothesis/ctr", "aesCTR(m) is not m XOR aesCTR(zeros): the stream-cipher shape assumed for CTR (ModelStream.ctr_of) "
+                 "does not describe the real function", case)
+    if not (len(go) == n + 16 and len(gks) == n + 16 and go[:n] == xorb(gks[:n], d)):
+        ctx.fail("stream-hypothesis/gcm", "aesGcmEncrypt(m) is not (m XOR keystream) followed by a 16-octet authenticator: the shape assumed for "
+                 "GCM (ModelStream.seal_of) does not describe the real function", case)
+    return "CStream %s %s %s %s %s" % (hexs(d), hexs(ks), hexs(o), hexs(gks), hexs(go))
+
+
+def post_damage(ctx, c):
+    (v, t, pos, reg), r = c.aux, c.res
+    case = {"fam": "damage", "variant": v, "data": t.hex(), "pos": pos, "encoding": r.get("out"), "damaged": r.get("out1b")}
+    if r.get("panic"):
+        ctx.fail("reveal/%s/panic" % v, "TryReveal panicked on a damaged encoding: %s" % r["panic"], case)
+        return None
+    if not r["ok"]:
+        ctx.broken("driver", "Obfuscate failed on a generated case: %s" % r["err"], case)
+        return None
+    ctx.count(("damage", v, t, pos), kind="damage/%s/%s/%s" % (v, reg, "accepted" if r["ok2"] else "rejected"))
+    if v == "gcm" and reg == "tag" and r["ok2"]:
+        ctx.fail("reveal/gcm/damaged-tag-accepted", "GCM TryReveal accepted an encoding of a %d-byte tag whose authenticator (bit %d of the "
+                 "encoding) was altered" % (len(t), pos), case)
+    if v == "ctr" and reg == "body":
+        b = pos - 256
+        want = bytearray(t)
+        want[b // 8] ^= 1 << (b % 8)
+        if not (r["ok2"] and bytes.fromhex(r["out2"]) == bytes(want)):
+            ctx.fail("stream-hypothesis/ctr-reveal", "CTR TryReveal of an encoding with bit %d flipped is not the tag with that bit flipped: the "
+                     "stream-cipher shape assumed for CTR does not describe the reveal path" % pos, case)
+    return None
+
+
 def txt_len(n):
     return n + max(1, -(-n // 255))
 
@@ -1561,7 +1630,7 @@ def post_msg_rt(ctx, c):
                                       g_msg(r.get("msg") if r.get("ok2") else None, g_obs_rr))
 
 
-TERMS = {"batch": post_batch, "exchange_seq": post_exchange_seq, "rburst": post_rburst, "burst": post_burst, "trim_na": post_trim_na, "dot_rt": post_dot_rt, "dot_recv": post_dot_recv, "pb_rt": post_pb_rt, "pb_dec": post_pb_dec, "anypb_bytes": post_anypb_bytes, "name_string": post_name_string, "exchange": post_exchange, "query": post_query, "msg_rt": post_msg_rt, "msg_dec": post_msg_dec, "anypb": post_any, "obf": post_obf, "reveal": post_reveal, "fmt": post_fmt, "name_rt": post_name_rt, "read_name": post_read_name, "trim": post_trim,
+TERMS = {"stream": post_stream, "damage": post_damage, "batch": post_batch, "exchange_seq": post_exchange_seq, "rburst": post_rburst, "burst": post_burst, "trim_na": post_trim_na, "dot_rt": post_dot_rt, "dot_recv": post_dot_recv, "pb_rt": post_pb_rt, "pb_dec": post_pb_dec, "anypb_bytes": post_anypb_bytes, "name_string": post_name_string, "exchange": post_exchange, "query": post_query, "msg_rt": post_msg_rt, "msg_dec": post_msg_dec, "anypb": post_any, "obf": post_obf, "reveal": post_reveal, "fmt": post_fmt, "name_rt": post_name_rt, "read_name": post_read_name, "trim": post_trim,
          "chunks": post_chunks, "b32": post_b32}
 
 
@@ -1650,7 +1719,7 @@ def run(ctx):
     _T0[0] = time.time()
     ctx.assumptions += [
         "base32 (RFC 4648 alphabet, no padding, case folding) is modelled concretely and its round trip is proved (C15_b32_roundtrip); the real coding is compared with it on every run",
-        "X25519, Elligator, AES, noise are section variables with the stated algebraic laws (not proved)",
+        "X25519, Elligator, noise are section variables with the stated algebraic laws (not proved); AES-CTR / AES-GCM: the three laws used (CTR involution, open-seal, 16-octet tag) are theorems for the stream-cipher shape of ModelStream.v (keystream XOR, appended authenticator checked by Open), which is compared with the real aesCTR / aesGcmEncrypt / TryReveal on every run; the keystream and the authenticator themselves are uninterpreted",
         "the Go in-package drivers, the case generators and the JSON->Gallina emitter are trusted",
         "sequence theorems (Props3.v): the randomness of call i is the explicit argument r_i; freshness over a sequence is proved under the stated hypothesis on the stream (pairwise different pads; pairwise different representatives or high bits), which the tie checks on the implementation as 'held encodings pairwise different'",
     ]
@@ -1671,7 +1740,7 @@ def run(ctx):
     if rc != 0:
         ctx.broken("examples", "non-vacuity examples (C15/Examples.v) or the case evaluator (C15/Run.v) no longer check: " + out[-500:])
     _t("coq props+examples")
-    cases = replay_cases(ctx) + gen_fmt(ctx) + gen_names(ctx) + gen_req(ctx) + gen_obf(ctx) + gen_any(ctx) + gen_msg(ctx) + gen_query(ctx) + gen_exch(ctx) + gen_burst(ctx) + gen_pb(ctx) + gen_dot(ctx) + gen_batch(ctx) + gen_seq_exchange(ctx)
+    cases = replay_cases(ctx) + gen_fmt(ctx) + gen_names(ctx) + gen_req(ctx) + gen_obf(ctx) + gen_any(ctx) + gen_msg(ctx) + gen_query(ctx) + gen_exch(ctx) + gen_burst(ctx) + gen_pb(ctx) + gen_dot(ctx) + gen_batch(ctx) + gen_seq_exchange(ctx) + gen_stream(ctx)
     if not run_go(ctx, cases):
         return
     _t("gen + go stage 1")
@@ -1786,6 +1855,7 @@ def run(ctx):
                        "batch/obf/gcm/shared", "batch/obf/gcm/conc2p1", "batch/obf/gcm/conc2p4", "batch/name_rt/seq", "batch/name_rt/conc2p1",
                        "batch/msg_rt/seq", "batch/msg_rt/conc2p1", "batch/msg_dec/seq", "batch/pb_rt/seq", "batch/pb_rt/conc2p1", "batch/anypb/seq",
                        "batch/send/seq", "batch/send/shared", "exchange_seq", "rburst",
+                       "stream", "damage/gcm/tag/rejected", "damage/gcm/body/rejected", "damage/gcm/header/rejected", "damage/ctr/body/accepted",
                        "dot_rt/ok", "dot_rt/oversize", "dot_recv/clean", "dot_recv/error",
                        "anypb/keep/ok", "anypb/empty/ok", "anypb/tapdance/ok", "anypb/other/err", "anypb/cross-keep/err", "anypb/nil/ok"])
     _t("oracle + terms")
